@@ -19,7 +19,7 @@ CLAIMED = {
  "C19": ("The duration is the solver's variable: ToValidatePeriod and the relative formatter are executed symbolically for every nanosecond count up to 2^32 seconds (and every negative one, every unparsable text via an error flag), the digits of the result are related to the duration through digit variables; the float64 accessors are handled assume-guarantee: their contract (integer part = integer quotient; q <= f < q+1; f >= q+0.5 exactly when the remainder is at least half a unit) is proved on the real time SSA in the SMT floating-point theory (cvc5) for the representable range, and used in place of the floats elsewhere.", "DESIGN.md 8 C19"),
  "C15": ("MD5 is abstracted as an uninterpreted function with congruence (every digest value possible), the decimal timestamp rendering by digit variables; the argument the library hands to MD5 is compared with the specification's concatenation, and the encode -> decode -> peer recomputation exchange is solver-decided for all accounts, secrets (every length 0..4, and exactly 15/16/32 octets), timestamps and digests, for the CMPP 2.0/3.0 connect exchange and the SMGP 3.0 login.", "DESIGN.md 8 C15"),
  "C18": ("Receipts are assembled from ordered key selections (enumerated) with symbolic values (arbitrary octets other than space and colon); the real extraction functions are executed symbolically (substring search as first-match terms) and every present/absent key's result is solver-decided; the CMPP status-report body round-trips as in C01.", "DESIGN.md 8 C18"),
- "C04": ("One-step relation against the framing specification from an arbitrary reader state: stream octets, cursor, number of arrived octets, read chunk sizes and the end/fault offset are solver variables; the real Decode/DecodeBlocked and io.ReadFull are executed symbolically.", "DESIGN.md 8 C04"),
+ "C04": ("One-step relation against the framing specification from an arbitrary reader state: stream octets, cursor, number of arrived octets, read chunk sizes and the end/fault offset are solver variables; the real Decode/DecodeBlocked and io.ReadFull are executed symbolically; the reader model reports end/fault either by an empty Read or together with the last octets; arrival histories (one codec value polled after each of three symbolic arrivals of a two-frame stream) check that no state kept between polls changes the frames.", "DESIGN.md 8 C04"),
  "C16": ("Set round trip for 0..3 parameters with symbolic distinct tags and values under every serialisation order (map order explored as a nondeterministic choice), agreement of the two parsers on well-formed sequences, no-fabrication against a reference walk for every short octet string, and the 16-bit size boundary jobs are all solver-decided on the real TLV/Options code.", "DESIGN.md 8 C16"),
  "C12": ("One-step induction over call histories: every PDU type is encoded with the buffer pool in an arbitrary state (stale content on Get, backing array havocked on Put) and decoded from a buffer that is then overwritten with arbitrary octets, another value and then the same value (changed) are encoded afterwards; the encoder's bytes and every decoded field must be unchanged - decided by z3 with the overwritten octets as free variables.", "DESIGN.md 8 C12"),
  "C11": ("Stability: every octet string of the listed lengths that a decoder accepts (all octets symbolic) is re-encoded and decoded again symbolically; success and field-wise equality are solver-decided on every accepting path. Canonical images: the symbolic PDUs of C01 are re-encoded after decoding and compared bit-for-bit.", "DESIGN.md 8 C11"),
